@@ -116,6 +116,6 @@ func VerifPoolLifecycle() {
 	}
 	zzverif.WaitQuiescent()
 	zzverif.Assert(s.p.Err() != nil, "pool_done_once_all_members_done")
-	zzverif.Assert(zzverif.ThreadsAlive() == 0, "watcher_goroutine_ended")
+	zzverif.Assert(zzverif.ThreadsAliveIs(0), "watcher_goroutine_ended")
 	zzverif.Cover("pool_lifecycle_done")
 }
